@@ -213,6 +213,12 @@ def gen_case(rng, max_days):
     d1 = dt.date.fromisoformat(cfg['end'][:10])
     n = (d1 - d0).days
     T = d0 + dt.timedelta(days=rng.randint(-2, n))
+    if cfg.get('burn_in') and rng.random() < 0.35:
+        # a cut day inside the tracked period but before its first rebalance: nothing has been decided yet
+        inst = refmodel.rebalance_instants(cfg)
+        b = dt.date.fromisoformat(cfg['burn_in'][:10])
+        if inst and inst[0].date() > b:
+            T = b + dt.timedelta(days=rng.randint(0, (inst[0].date() - b).days - 1))
     return {'cfg': cfg, 'rw': {'T': T.isoformat(), 'kind': rng.choice(REWRITES), 'seed': rng.randint(0, 10 ** 6)},
             'pre': rng.random() < 0.4}
 
